@@ -33,7 +33,7 @@ VERIF = bootstrap.VERIF
 # --------------------------------------------------------------------------
 # A. the OpenMP race model
 # --------------------------------------------------------------------------
-OMP_INVS = ["ImagesVisited", "NoDataRace", "NoConflictingIterations", "ReadsFromSequential", "NoUndefinedPrivateRead",
+OMP_INVS = ["SiteModelled", "LastprivateIndependentOfSchedule", "ImagesVisited", "NoDataRace", "NoConflictingIterations", "ReadsFromSequential", "NoUndefinedPrivateRead",
             "ResultIndependentOfSchedule", "NoOutOfBounds", "RegionModelled", "TypeOK"]
 
 OMP_CFG = """SPECIFICATION Spec
@@ -53,8 +53,9 @@ def site_tla(m):
     seq = lambda xs: "<<" + ", ".join(str(int(x)) for x in xs) + ">>"  # noqa: E731
     scan = '[kind |-> "%s", np |-> %d, ns |-> %d, s2p |-> %s, p2s |-> %s, fcloc |-> %s, iters |-> %s]' % (
         sc["kind"], sc["np"], sc["ns"], seq(sc["s2p"]), seq(sc["p2s"]), seq(sc["fcloc"]), seq(m["iters"]))
-    return '[name |-> "%s", acc |-> %s, cls |-> %s, oob |-> %d, parallel |-> %s, scan |-> %s]' % (
-        m["name"], acc, cls, len(m["oob"]), "TRUE" if m["parallel"] else "FALSE", scan)
+    maywr = "{" + ", ".join("<<%d,%d>>" % x for x in m.get("maywr", [])) + "}"
+    return '[name |-> "%s", acc |-> %s, cls |-> %s, oob |-> %d, parallel |-> %s, scan |-> %s, maywr |-> %s, unmodelled |-> %d]' % (
+        m["name"], acc, cls, len(m["oob"]), "TRUE" if m["parallel"] else "FALSE", scan, maywr, len(m.get("unmodelled", [])))
 
 
 def mc_sites(models):
@@ -79,6 +80,11 @@ def omp_violation_detail(models, name, trace):
                           for b in list(st[key])[:5]]
         if m["oob"]:
             d["out_of_bounds"] = m["oob"][:5]
+        if m.get("unmodelled"):
+            d["unmodelled_constructs"] = m["unmodelled"][:5]
+        for key in ("taken", "lpw", "lastthread"):
+            if key in st:
+                d[key] = st[key]
         d["schedule"] = [dict(step=a, cur=s.get("cur"), pc=s.get("pc"), claimed=sorted(s.get("claimed", [])))
                          for a, s in trace[-8:]]
     return d
@@ -128,7 +134,7 @@ def check_omp(ctx):
                 one = [m for m in ms if m["name"] == si]
                 cfg2 = OMP_CFG % (2, 4, "\n".join("INVARIANT " + i for i in
                                                  ["NoDataRace", "ReadsFromSequential", "NoUndefinedPrivateRead",
-                                                  "ResultIndependentOfSchedule"]))
+                                                  "ResultIndependentOfSchedule", "LastprivateIndependentOfSchedule"]))
                 try:
                     r2 = ctx.tlc("MC_KernelsOMP", cfg_text=cfg2, extra_files={"MC_KernelsOMP.tla": mc_sites(one)},
                                  requirement=False, workers=4, timeout=120)
@@ -136,6 +142,8 @@ def check_omp(ctx):
                         det["interleaving"] = omp_violation_detail(one, r2.violated, r2.trace)
                 except tlcmod.MachineryError:
                     pass
+            if name == "SiteModelled":
+                name = "Unmodelled"
             ctx.violation("omp:%s:%s" % (name, det.get("site", "?")),
                           "OpenMP region %s (%s:%s) violates %s" % (det.get("site"), det.get("file"), det.get("line"), name),
                           det)
@@ -350,7 +358,7 @@ def sanitizer_findings(stderr):
 
 def check_kernels(ctx, prog):
     quick = ctx.quick
-    threads = [1, 2, 7] if quick else [1, 2, 3, 4, 7, 8, 16]
+    threads = [1, 2, 5, 16] if quick else [1, 2, 3, 4, 5, 7, 8, 16]
     reps = [1, 2] if quick else [1, 2, 3, 4, 5]
     with_asan = os.environ.get("C13_ASAN", "1") != "0"
     keys = plan(ctx, threads, reps, True, with_asan)
@@ -370,7 +378,7 @@ def check_kernels(ctx, prog):
     ctx.extra["recorded_calls"] = len(calls)
     ctx.extra["configurations"] = notes
     nprng = np.random.default_rng(ctx.seed + 1000)
-    cases = K.select_cases(calls, nprng, per_kernel=12 if quick else 40, per_kernel_random=12 if quick else 30)
+    cases = K.select_cases(calls, nprng, per_kernel=24 if quick else 60, per_kernel_random=12 if quick else 30)
     ctx.extra["cases"] = len(cases)
 
     # ---- glue table against the recorded dtypes / ranks (static, from the AST) ----
@@ -505,7 +513,8 @@ def check_kernels(ctx, prog):
     for g in groups.values():
         facts = K.index_map_facts(cases[g["case"]])
         gl.append(dict(kernel=g["kernel"], case=g["case"], variant=g["variant"], indexmaps=facts["indexmaps"],
-                       noncontig=facts["noncontig"], p2sprefix=facts["p2sprefix"], runs=set_of(g["runs"])))
+                       noncontig=facts["noncontig"], p2sprefix=facts["p2sprefix"], gllimit=facts["gllimit"],
+                       runs=set_of(g["runs"])))
     ctx.sample(dict(kernel=gl[0]["kernel"], case=gl[0]["case"], runs=len(gl[0]["runs"]))) if gl else None
 
     # ---- code -> spec: TLC judges every group ----
@@ -519,8 +528,9 @@ def check_kernels(ctx, prog):
         if name in ("ImplAllKernelsCovered", "ImplIndexMapCoverage"):
             # the inputs do not span what the property quantifies over: the run proves nothing
             raise tlcmod.MachineryError("C13 case generator: coverage requirement %s of KernelRuns.tla not met "
-                                        "(kernel without a case, or an index-map kernel without a case with "
-                                        "non-contiguous images / non-prefix p2s_map)" % name)
+                                        "(kernel without a case, an index-map kernel without a case with "
+                                        "non-contiguous images / non-prefix p2s_map, or no K -> 0 case with a "
+                                        "q-direction and use_openmp=1 for recip_dipole_dipole)" % name)
         grp = st.get("grp") or {}
         kern = grp.get("kernel", "?") if isinstance(grp, dict) else "?"
         key = "kernels:%s:%s" % (name, kern)
